@@ -20,7 +20,7 @@ RULE = ("random cases: class x data kind (random/sparse/periodic/constant, lengt
 ANCHORS = ['BitStore.find', 'BitStore.rfind', 'BitStore.findall_msb0', 'BitStore.rfindall_msb0',
            'Bits.find', 'Bits.rfind', 'Bits.findall', 'Bits.__contains__', 'Bits.cut', 'Bits.split',
            'Bits.startswith', 'Bits.endswith', 'Bits.count', 'BitArray._replace', 'Bits._findall_msb0']
-REQUIRED_OPS = ['find', 'rfind', 'findall', 'in', 'startswith', 'endswith', 'count', 'cut', 'split', 'replace']
+REQUIRED_OPS = ['find', 'rfind', 'findall', 'in', 'startswith', 'endswith', 'count', 'cut', 'split', 'replace', 'lazy-interleaved', 'lazy-partial']
 MIN_EVALS = {'quick': 20000, 'thorough': 200000}
 ASSUMPTIONS = ['MSB0 mode only (LSB0 search is judged by C12)',
                'Python str.find / slicing is the trusted definition of "occurs at p"']
@@ -250,6 +250,32 @@ def judge(ctx, c):
             exp = ('ok', M.split_model(d, p, w[0], w[1], eff, cnt))
             ic = pclass
         check('split', got, exp, ic, hits=len(o) if o is not None else None)
+        # the generators are lazy: three of them over the same object advanced in turn, and one that is only partly consumed before
+        # another search is made, must yield what their list forms yield
+        if p and w is not None and bits > 0 and not (cnt is not None and cnt < 0):
+            def interleaved():
+                g1, g2, g3 = s.findall(P(), st, en, cnt, ba), s.split(P(), st, en, cnt, ba), s.cut(bits, st, en, cnt)
+                o1, o2, o3 = [], [], []
+                live = [(g1, o1), (g2, o2), (g3, o3)]
+                while live:
+                    for g, out in list(live):
+                        try:
+                            x = next(g)
+                            out.append(B(x) if isinstance(x, bitstring.Bits) else x)
+                        except StopIteration:
+                            live.remove((g, out))
+                return o1, o2, o3
+            got = call(interleaved)
+            exp = ('ok', (o if cnt is None else o[:cnt], M.split_model(d, p, w[0], w[1], eff, cnt), M.cut_model(d, bits, w[0], w[1], cnt)))
+            check('lazy-interleaved', got, exp, 'valid', hits=len(o))
+
+            def partial():
+                g = s.findall(P(), st, en, None, ba)
+                first = list(itertools.islice(g, 1))
+                other = s.find(P(), st, en, ba), s.rfind(P(), st, en, ba), P() in s     # searches made while g is suspended
+                return first + list(g), other
+            got = call(partial)
+            check('lazy-partial', got, ('ok', (o, (((o[0],) if o else ()), ((o[-1],) if o else ()), bool(allocc)))), 'valid', hits=len(o))
         # replace: match selection (mutable classes only)
         if c['cls'] in util.MUTABLE:
             t = mk(cls, d)
